@@ -5,6 +5,7 @@
 // patterns into pointer cells and returns / passes arbitrary patterns.
 #include "../sim/world_common.hpp"
 #include "../sim/mmu.hpp"
+#include "../sim/aligned_new.hpp"
 #include <memory>
 #include <optional>
 #include <variant>
